@@ -4,6 +4,7 @@ import re
 import clirun
 import clifam
 import vlib
+import drvmodel
 
 PID = "C17"
 NEEDS_CLI = True
@@ -127,6 +128,7 @@ def execute(cases, tier):
     cats = collections.Counter()
     keys = set()
     mcases, rows = [], []
+    dcases, dexp = [], []          # the driver model (coq/Driver.v) replayed on the schedule reconstructed from each run
     for c in cases:
         sb = clirun.Sandbox("c17")
         try:
@@ -159,6 +161,13 @@ def execute(cases, tier):
             keys.add(repr((c["files"], c["rules"], c["jobs"], c["keep"])))
         mcases.append([c["jobs"], kept, tr])
         rows.append((c, r, tr, spec))
+        if not r["hung"]:
+            try:
+                wire, exp = drvmodel.model_case(c, tr, [(p, tag) for p, tag, _ in clirun.status_lines(r["stdout"])], c["jobs"], c["keep"], False)
+                dcases.append(wire)
+                dexp.append((c, r, exp, None))
+            except drvmodel.Unexplained as ex:
+                dexp.append((c, r, None, str(ex)))
     mouts = vlib.run_model("par", mcases)
     vm_n = vlib.vm_crosscheck("par", mcases, mouts, 10, PID)
     for (c, r, tr, spec), m in zip(rows, mouts):
@@ -166,6 +175,17 @@ def execute(cases, tier):
             where = tr[m[1]] if m[0] == "refused" and m[1] < len(tr) else None
             disagreements.append({"case": c, "impl": {"trace": tr, "stderr": r["stderr"][-500:]}, "model": m,
                                   "spec": spec or None, "note": "the observer automaton refuses event %r" % (where,), "broken": "corr_C17_trace"})
+    douts = vlib.run_model("driver", dcases)
+    vm_n += vlib.vm_crosscheck("driver", dcases, douts, 5, PID + "d")
+    k = 0
+    for (c, r, exp, why) in dexp:
+        if exp is not None:
+            why = drvmodel.compare(douts[k], exp, r["rc"])
+            k += 1
+            cats["driver_model_replayed"] += 1
+        if why:
+            disagreements.append({"case": c, "impl": {"stdout": r["stdout"][-800:], "rc": r["rc"]}, "model": "coq/Driver.v replayed on the schedule reconstructed from the run",
+                                  "spec": None, "note": "the run is not a run of the driver model: " + why, "broken": "corr_C17_driver_model"})
     # the library's run_parallel (known finding D10)
     lib = vlib.run_impl("parlib", [{}])[0]
     cats["library_run_parallel_closes=%s" % lib.get("shutdowns")] += 1
